@@ -45,6 +45,7 @@ type Report struct {
 	start         time.Time
 	seen          map[[16]byte]struct{}
 	sigCount      map[string]int
+	checkSigs map[string]int
 }
 
 // New starts a report.
@@ -80,6 +81,18 @@ func (r *Report) Sample(v any, n int) {
 
 // Violate records a violation (at most 5 per signature are kept verbatim).
 func (r *Report) Violate(v Violation) {
+	// a defect that breaks nearly every case of a check would otherwise produce one group (and one replay file) per
+	// parameter combination: beyond 60 distinct signatures of one check the rest share one group
+	if r.sigCount[v.Signature] == 0 {
+		if r.checkSigs == nil {
+			r.checkSigs = map[string]int{}
+		}
+		if r.checkSigs[v.Check] >= 60 {
+			v.Signature = v.Check + ":further-failing-cases"
+		} else {
+			r.checkSigs[v.Check]++
+		}
+	}
 	r.sigCount[v.Signature]++
 	if r.sigCount[v.Signature] > 5 {
 		r.ViolationsCut++
